@@ -394,8 +394,9 @@ func (m *machine) decodeSweep(t *testing.T) {
 					}
 					for oi := range m.ops {
 						o := &m.ops[oi]
-						if o.nints > 0 {
-							continue
+						ints := make([]int, o.nints)
+						for i := range ints {
+							ints[i] = min(1, o.intMax)
 						}
 						// operand positions of this kind: -1 = receiver
 						var positions []int
@@ -444,7 +445,7 @@ func (m *machine) decodeSweep(t *testing.T) {
 								for i := range a0 {
 									ams[i] = m.kinds[o.args[i]].enc(a0[i])
 								}
-								if !o.guard(rm, ams, nil) {
+								if !o.guard(rm, ams, ints) {
 									continue
 								}
 							}
@@ -453,7 +454,7 @@ func (m *machine) decodeSweep(t *testing.T) {
 								recv, args := build(x)
 								var res any
 								var ob string
-								if p, _ := vlib.Catch(func() { res, ob = o.apply(recv, args, nil) }); p != nil {
+								if p, _ := vlib.Catch(func() { res, ob = o.apply(recv, args, ints) }); p != nil {
 									return fmt.Sprintf("panic:%v", p), false
 								}
 								out := ob
@@ -482,6 +483,106 @@ func (m *machine) decodeSweep(t *testing.T) {
 							if oi == 0 && pos == positions[0] {
 								vlib.Sample(sub, k.name, desc+" → same as fresh")
 							}
+						}
+					}
+				}
+			}
+		}
+	}
+}
+
+// pairSweep is the second deterministic companion of run: after an operation A that derives its
+// receiver r from an operand a of the same kind (Set, Copy, Neg, Add, decode, …), every in-place
+// operation B is applied to one of the two objects, and the OTHER one must keep its value — results
+// must not share storage with operands.
+func (m *machine) pairSweep(t *testing.T) {
+	sub := "seq/" + m.name + "/pair-sweep"
+	first := func(kn string, i int) any {
+		k := m.kinds[kn]
+		names := sortedKeys(k.ctors)
+		return k.ctors[names[i%len(names)]]()
+	}
+	for ai := range m.ops {
+		A := &m.ops[ai]
+		if A.recv == "" {
+			continue
+		}
+		K := m.kinds[A.recv]
+		for apos, an := range A.args {
+			if an != A.recv {
+				continue
+			}
+			for bi := range m.ops {
+				B := &m.ops[bi]
+				if B.recv != A.recv {
+					continue
+				}
+				for _, onRecv := range []bool{true, false} {
+					for variant := 0; variant < 4; variant++ {
+						// integer parameters (selectors of CMov / CSelect, small counts): all zero, then all one
+						aints, bints := make([]int, A.nints), make([]int, B.nints)
+						for i := range aints {
+							aints[i] = min(variant&1, A.intMax)
+						}
+						for i := range bints {
+							bints[i] = min(variant>>1, B.intMax)
+						}
+						if variant >= 2 && A.nints == 0 && B.nints == 0 {
+							continue
+						}
+						// build A's operands: receiver r, the distinguished operand a, the rest from constructors
+						r := first(A.recv, variant)
+						aargs := make([]any, len(A.args))
+						for i, n := range A.args {
+							aargs[i] = first(n, variant+1+i)
+						}
+						a := aargs[apos]
+						if A.guard != nil {
+							ams := make([][]byte, len(aargs))
+							for i := range aargs {
+								ams[i] = m.kinds[A.args[i]].enc(aargs[i])
+							}
+							if !A.guard(K.enc(r), ams, aints) {
+								continue
+							}
+						}
+						var res any
+						if p, _ := vlib.Catch(func() { res, _ = A.apply(r, aargs, aints) }); p != nil || res != r {
+							continue // A did not write its receiver in place (or is not applicable to these values)
+						}
+						target, other, oname := r, a, "operand"
+						if !onRecv {
+							target, other, oname = a, r, "result"
+						}
+						want := append([]byte{}, K.enc(other)...)
+						bargs := make([]any, len(B.args))
+						for i, n := range B.args {
+							bargs[i] = first(n, variant+3+i)
+						}
+						if B.guard != nil {
+							bms := make([][]byte, len(bargs))
+							for i := range bargs {
+								bms[i] = m.kinds[B.args[i]].enc(bargs[i])
+							}
+							if !B.guard(K.enc(target), bms, bints) {
+								continue
+							}
+						}
+						if p, _ := vlib.Catch(func() { B.apply(target, bargs, bints) }); p != nil {
+							continue
+						}
+						vlib.Eval(sub)
+						got := K.enc(other)
+						desc := fmt.Sprintf("%s: r.%s(…a…) [a = operand %d], then %s on the %s", K.name, A.name, apos, B.name, map[bool]string{true: "result r", false: "operand a"}[onRecv])
+						if !bytes.Equal(got, want) {
+							vlib.ReportDirect(t, "C11/seq/"+m.name+"/"+A.name+"-then-"+B.name+"/"+oname+"-changed",
+								fmt.Sprintf("%s: the %s changed from %x to %x", desc, oname, want, got),
+								map[string]interface{}{"machine": m.name, "A": A.name, "B": B.name, "on_result": onRecv, "variant": variant})
+							continue
+						}
+						vlib.NonTrivial(sub, "", []byte(desc), []byte{byte(variant)})
+						if bi == 0 && variant == 0 && onRecv {
+							vlib.Sample(sub, K.name, desc+" → the other object is unchanged")
 						}
 					}
 				}
